@@ -84,7 +84,9 @@ CodesOf(typ) == IF Fam = "v3" THEN (IF typ = "Connack" THEN Names(V3ConnectRC) E
 SubTopicDom ==
     IF Fam = "v3" THEN { [filter |-> f, qos |-> q] : f \in Filters, q \in 0..2 }
     ELSE { [filter |-> f, qos |-> q, nl |-> nl, rap |-> rap, rh |-> rh] :
-              f \in {<<97, 47, 43>>}, q \in 0..2, nl \in BOOLEAN, rap \in BOOLEAN,
+              \* "a/+" and the shared filter "$share/g/t": options x kind of filter (No Local on a shared filter is a
+              \* protocol error for a SERVER to act on, not for a codec to alter or refuse)
+              f \in {<<97, 47, 43>>, <<36, 115, 104, 97, 114, 101, 47, 103, 47, 116>>}, q \in 0..2, nl \in BOOLEAN, rap \in BOOLEAN,
               rh \in {"SendAtSubscribe", "SendAtSubscribeIfNotExist", "DoNotSend"} }
            \cup { [filter |-> f, qos |-> 1, nl |-> FALSE, rap |-> TRUE, rh |-> "SendAtSubscribe"] : f \in Filters }
 
